@@ -518,8 +518,12 @@ pub fn run_plan(plan: &Plan, tier: &str) -> Outcome {
                     }
                     if out.problems.len() < 4 {
                         let w = run.writes.get(cp.full).map(|w| json!({"partition":w.partition,"offset":w.offset,"len":w.len}));
+                        // the torn write is the in-place rewrite of a blob index that is larger than one page
+                        let torn_index = cp.torn_pages.is_some()
+                            && cfg.blob_index_size > PAGE
+                            && run.writes.get(cp.full).map(|w| w.len == cfg.blob_index_size && w.data.len() == w.len && crate::image::xxh64(&w.data[8..]) == u64::from_be_bytes(w.data[..8].try_into().unwrap())).unwrap_or(false);
                         out.problems.push((
-                            format!("{sig}:tomb={}:idx={}{}", cfg.tombstone, cfg.blob_index_size, if cp.torn_pages.is_some() { ":torn" } else { "" }),
+                            format!("{sig}:tomb={}:idx={}{}", cfg.tombstone, cfg.blob_index_size, if torn_index { ":torn-multi-page-blob-index" } else if cp.torn_pages.is_some() { ":torn" } else { "" }),
                             format!("cycle {ci}, crash after {} of {} writes (torn pages of the next write: {:?}, next write {:?}): {detail}; history of the key: {:?}", cp.full, run.writes.len(), cp.torn_pages, w, hist.get(k)),
                             json!({"cycle":ci,"crash_point":cp,"key":k}),
                         ));
@@ -614,6 +618,12 @@ pub fn run(seed: u64, tier: &str, shard: usize, nshards: usize) -> ShardResult {
     let mut rng = Rng::derive(seed, 0xC04_000 + shard as u64);
     for _ in 0..(total / nshards.max(1)).max(1) {
         let plan = gen_plan(&mut rng, tier);
+        // development aid: restrict a run to the plans with a given blob index size
+        if let Ok(only) = std::env::var("VH_C04_ONLY_IDX") {
+            if only.parse::<usize>().ok() != Some(plan.cfg.blob_index_size) || plan.cfg.tombstone {
+                continue;
+            }
+        }
         let o = run_plan(&plan, tier);
         absorb(&mut res, &plan, o);
     }
